@@ -43,6 +43,13 @@ CLAIMED.update({
             "One known finding (input-stage drops are not accounted). The balance equations as numbers across goroutines are not decided.", "§4 C19"),
 })
 
+CLAIMED.update({
+    "C17": ("static lock-held must-dataflow (guarded-by), must-precede ordering incl. LIFO of defers, who-may-write",
+            "Lock discipline and ordering of the reload machinery on all paths: every access to downstream / slots / addresses and every dereference of a sink's slot pointer is under the RB-mutex (writes of downstream under the write lock); "
+            "reload validates before locking, fails without side effects, and under the lock closes sinks, shuts down, renews, re-creates sinks; the loader is swapped only in the completion closure handed out after parse+compatibility succeeded; "
+            "a connection's sink is closed before its descriptor (slot index) is released. The interleavings themselves are not explored (not a linearizability argument).", "§4 C17"),
+})
+
 NOT_YET = {}
 
 NOT_APPLICABLE = {
